@@ -293,6 +293,8 @@ def method_call(fr, obj, name, args, kwargs):
         # effect recorder (matplotlib Axes): the call is appended to the object's trace
         obj.fields["calls"].append((name, tuple(args), dict(kwargs)))
         return Opaque("artist", name)
+    if isinstance(obj, Obj) and obj.cls == "mpl.Figure":
+        return figure_method(fr, obj, name, args, kwargs)
     if isinstance(obj, Obj) and obj.cls in ("pandas.DataFrame", "pandas.Index", "pandas.values"):
         from . import pdmodel
         return pdmodel.method(fr, obj, name, args, kwargs)
@@ -914,6 +916,59 @@ def _subplots(fr, args, kwargs):
     ax = new_axes()
     cur().memo["ghost:pyplot_current"] = ax      # a freshly created axes is pyplot's current axes
     return (Opaque("figure"), ax)
+
+
+@model("matplotlib.pyplot.figure")
+def _plt_figure(fr, args, kwargs):
+    """plt.figure(): a new, empty figure.  plt.figure(num) / plt.figure(num=...) with a label or number: the figure of that name IF ONE IS
+    OPEN (pyplot's registry outlives the call), otherwise a new one - so its axes may already carry the artists of an earlier call unless the
+    function clears the figure first."""
+    num = kwargs.get("num", args[0] if args else None)
+    fig = Obj("mpl.Figure", {"maybe_existing": num is not None, "ax": None})
+    cur().memo["ghost:pyplot_current_fig"] = fig
+    cur().memo["ghost:pyplot_current"] = None
+    return fig
+
+
+def figure_method(fr, fig, name, args, kwargs):
+    c = cur()
+    if name in ("clf", "clear"):
+        fig.fields["maybe_existing"] = False
+        fig.fields["ax"] = None
+        return None
+    if name in ("gca", "add_subplot", "subplots", "add_axes"):
+        if name == "subplots" and (kwargs.get("nrows", args[0] if args else 1), kwargs.get("ncols", args[1] if len(args) > 1 else 1)) != (1, 1):
+            raise Unsupported("Figure.subplots with several panels")
+        if name == "add_subplot" and args and tuple(args) not in ((111,), (1, 1, 1)):
+            raise Unsupported("Figure.add_subplot with several panels")
+        if name == "gca" and fig.fields["ax"] is not None:
+            return fig.fields["ax"]
+        ax = new_axes()
+        # axes of (or on top of) a figure that may have been open before the call: what an earlier call drew is still there
+        ax.fields["prior_artists"] = bool(fig.fields["maybe_existing"])
+        fig.fields["ax"] = ax
+        c.memo["ghost:pyplot_current"] = ax
+        return ax
+    if name in ("tight_layout", "suptitle", "set_size_inches", "set_tight_layout", "savefig", "show", "set_dpi", "set_figwidth", "set_figheight",
+                "subplots_adjust", "autofmt_xdate", "canvas"):
+        return None
+    raise Unsupported(f"Figure.{name} (not in the figure model)")
+
+
+@model("matplotlib.pyplot.gca")
+def _plt_gca(fr, args, kwargs):
+    c = cur()
+    ax = c.memo.get("ghost:pyplot_current")
+    if ax is not None:
+        return ax
+    fig = c.memo.get("ghost:pyplot_current_fig")
+    if fig is not None:
+        return figure_method(fr, fig, "gca", (), {})
+    # pyplot's current axes when the function has made none: whatever the session left current, with whatever it shows
+    ax = new_axes()
+    ax.fields["prior_artists"] = True
+    c.memo["ghost:pyplot_current"] = ax
+    return ax
 
 
 def _pyplot_draw(name):
